@@ -18,36 +18,52 @@ MANIFEST = {
             "second-stage list denies (six entry points; zone->list table proved equal to the one regenerated from "
             "firewall.py), changes nothing but that list's hit counter - no ARP learning, no session manager, no "
             "process_frame, nothing emitted; hit counters never weaken a block; rule shapes any-any / source range / empty list "
-            "with implicit deny; (2) a cut theorem for re-entrant, synchronously delivering nodes: if every attacker-side "
+            "with implicit deny; (1b, Props/C06Deny.lean) the second sentence of the property as ONE expression per device: "
+            "C06_firewall_closed_form (first verdict -> learn -> session manager XOR (look-ups ->) selected second entry point -> ITS "
+            "verdict -> process_frame), denied at either stage => the rest of the handler is `done`; the decision "
+            "check_send_frame_to_session_manager is translated by the extractor from Python's own parse of the source expression "
+            "(Gen BExpr) and proved equal to the model's for every valuation (C06_gen_toSession), so a transit frame of any protocol "
+            "always meets the second list (C06_firewall_transit_denied_inert); "
+            "(2) a cut theorem for re-entrant, synchronously delivering nodes: if every attacker-side "
             "node is interior, or has its boundary interfaces disabled, or is a router that is OFF or denies everything, or a "
             "firewall whose first-stage list denies everything on attacker-facing ports, then ANY sequence of operations on "
-            "the attacker side, from ANY state of caches/sessions/software, leaves every protected node's state unchanged. "
-            "Ties: Gen/Filter.lean regenerated from router.py, firewall.py, switch.py, host_node.py, base.py, "
-            "session_manager.py (order of guards and calls, list per entry point, port dispatch, power guards, own-source "
-            "stamping, send_frame call sites, cross-node reaches) + rig R-filter (real elements vs model, frame by frame) + "
-            "rig R-net (generated switched / routed / firewall+DMZ topologies, every block mechanism, red repertoire from A "
-            "before and after the block, B-side describe_state against an idle run, per-frame denied=>inert wrappers). "
-            "Deepened (Props/C06Class.lean): the cut theorem for FRAME CLASSES - a router whose list denies every packet of the "
+            "the attacker side, from ANY state of caches/sessions/software, leaves every protected node's state unchanged; "
+            "explicit instances for the never-emitting mechanisms (B off / NIC disabled, device on the path off, disabled port on "
+            "either side, missing link). "
+            "(3, Props/C06Class.lean) the cut theorem for FRAME CLASSES - a router whose list denies every packet of the "
             "class circulating on the attacker side (source exact/range, destination, protocol, port patterns; decidable scan "
-            "denyClassCheck proved sound), a firewall whose first OR second-stage lists deny the class (the six entry points, "
-            "second entry selected as in the code); the class-aware certificate certifyC is proved sound and must accept the real "
-            "post-block network of EVERY R-net scenario and reject the same network without the block; a denying router's handling "
-            "of genuine ARP packets (routerArpSoft: RouterARP request/reply, reply through resolve_outbound_network_interface, "
-            "process_frame's broadcast and own-address drops) is PROVED to stay on the attacker side; ARP.send_arp_request targets "
-            "only a local subnet or the default gateway and stamps the outbound interface as sender; Gen/FilterSoft.lean: every "
-            "enable()/enable_port()/.enabled=True site, none reachable from receive_frame except through the request dispatcher.",
-    "note": "Partial: software above the filtering layer is an arbitrary parameter except a router's ARP handling (modelled, "
-            "proved); remaining hypotheses, validated by R-net: at a firewall port whose first list lets the class pass, the "
-            "firewall's own session replies, its DMZ look-ups and its forwarding INTO ZONES WITH NO WIRE TO THE PROTECTED SIDE stay "
-            "on the attacker side (forwarding correctness is C08's); attacker-side nodes emit only frames of the class (validated "
-            "on every transmitted frame); software does not re-enable a boundary interface (regenerated call-site scan: only through "
-            "the request dispatcher); node-off inertness for hosts/switches/firewalls rests on C12's invariant (not ON => interfaces disabled); "
-            "shared mutable frames/payload aliasing and application-level relays are outside the model.",
+            "denyClassCheck proved sound), a firewall whose first OR second-stage lists deny the class; certificate certifyC sound. "
+            "(4, Props/C06Net.lean) THE ATTACKER SIDE IS MODELLED AND ITS CLOSURE PROVED: hosts behind their session manager "
+            "(arbitrary services/applications as scripts over the software state; every frame stamped with the outbound interface's "
+            "MAC/IP; ARP requests as send_arp_request builds them; the ARP service's reply addressed to the requester) and switches "
+            "(forward the received frame unchanged) turn class frames into class frames (C06_host_safe, C06_switch_safe); the class "
+            "of a labelled topology carries the ARP well-formedness facts; C06_certifiedN_unchanged: for a network accepted by the "
+            "decidable certificate certifyN NOTHING is assumed of the attacker side and NOTHING of a blocking router's software "
+            "(its ARP handling - the only frames exempt from its list - is proved to stay on the attacker side from those facts). "
+            "SoftKeeps is a decidable condition on the software set (C06_softKeeps_of_confined_set: software confined to the software "
+            "state + firmware keep every sw-independent predicate), true of everything shipped except the Terminal "
+            "(C06_gen_shipped_software: regenerated SYSTEM_SOFTWARE sets and per-class receive-path reachability). "
+            "Ties: Gen/Filter.lean, Gen/FilterSoft.lean regenerated from router.py, firewall.py, switch.py, host_node.py, base.py, "
+            "session_manager.py, arp.py, protocols/arp.py (order of guards and calls, list per entry point, branch shapes, port "
+            "dispatch, power guards, own-source stamping, send_frame call sites, cross-node reaches, enable sites, ARPPacket "
+            "construction sites, generate_reply, Switch.receive_frame) + rig R-filter (real elements vs model, frame by frame) + "
+            "rig R-net (generated switched / routed / firewall+DMZ topologies, every block mechanism, red repertoire from A "
+            "before and after the block, B-side describe_state against an idle run, per-frame denied=>inert wrappers, all three "
+            "certificates asked on the real post-block network and on the unblocked one, the host/switch/ARP models validated on "
+            "every transmitted frame).",
+    "note": "Partial: still hypotheses (validated by R-net): at a FIREWALL port whose first list lets the class pass (second-stage "
+            "blocks), the firewall's own session replies, its DMZ look-ups and its forwarding into zones with no wire to the "
+            "protected side stay on the attacker side (FwSecondOK: needs soundness of the initial ARP cache, C08's); destination- and "
+            "protocol-specific router rules and interior ROUTERS on the attacker side keep the closure hypothesis EmitsCl (source "
+            "classes and any-class with hosts+switches are closed); a Terminal on the blocking element (command execution reaches the "
+            "request dispatcher) and user-installed software are outside the confined set; node-off inertness for hosts/switches/"
+            "firewalls rests on C12's invariant (not ON => interfaces disabled); shared mutable frames/payload aliasing and "
+            "application-level relays are outside the model.",
     "technique": "Lean 4 theorems over executable element models + generic cut theorem; model tied by regenerated tables and "
                  "two differential/oracle rigs",
     "design_ref": "5/C06",
 }
-MODULES = ["PrimaiteModel.Lemmas.C06Cut", "PrimaiteModel.Props.C06", "PrimaiteModel.Props.C06Class"]
+MODULES = ["PrimaiteModel.Lemmas.C06Cut", "PrimaiteModel.Props.C06", "PrimaiteModel.Props.C06Class", "PrimaiteModel.Props.C06Deny", "PrimaiteModel.Props.C06Net"]
 EXE = "drv_c06"
 
 
@@ -69,8 +85,8 @@ def replay(rec: dict) -> bool:
         ok, impl, *_ = _diff_filter(r["case"])
         return ok and not any(rig.per_frame_oracle(a) for a in impl)
     if r.get("rig") == "net":
-        res = netrig.run_scenario(r["scenario"])
-        return not res["violations"]
+        res = netrig.run_scenario(r["scenario"], control=False)
+        return not res["violations"] and not res["model_bad"]
     return True
 
 
@@ -145,16 +161,22 @@ def run(ctx: Ctx):
         ctx.extract("AclMatch", x_acl.emit_match)
         ctx.prove(MODULES, exes=[EXE], clean=False, leanchecker=ctx.thorough)
     ctx.assumptions = list(TRUSTED_BASE) + [
-        "C06: software above the filtering layer is an arbitrary parameter of the model, except a router's ARP handling "
-        "(routerArpSoft, proved safe under: ARP requests are broadcasts whose sender lies in the arrival interface's network, ARP "
-        "replies to an interface's MAC are for its IP, boundary and attacker-facing networks are disjoint - the last is checked by "
-        "certifyC); 'software does not re-enable a boundary interface while processing frames' rests on the regenerated enable-site "
-        "scan (name-based call graph; the request dispatcher IS reachable: a logged-in attacker is the excluded relay)",
+        "C06: software above the filtering layer is an arbitrary parameter of the model. In C06_certifiedN_unchanged the attacker "
+        "side is modelled: a host's services/applications are arbitrary scripts over the software state whose emissions pass "
+        "SessionManager.receive_payload_from_software_manager (hostStamp) - tied by Gen (one Frame construction, own source, the only "
+        "send_frame site under simulator/system, ARPPacket built only by send_arp_request and generate_reply, send_arp_reply called "
+        "only by the two _process_arp_request) and validated on every transmitted frame by R-net; a switch forwards the received "
+        "frame unchanged (Gen.switchReceive + R-net); the ARP sender MAC of a request is represented by the frame's source MAC "
+        "(equal on every frame send_arp_request builds)",
+        "C06: 'software does not re-enable a boundary interface while processing frames' (SoftKeeps) is proved for software sets "
+        "that are confined to the software state; that a shipped class IS confined rests on the regenerated per-class receive-path "
+        "scan (self/super calls resolved in the ancestor chain, other calls by name, stops at the network boundary); the Terminal is "
+        "not confined (request dispatcher: a logged-in attacker is the excluded application-level relay)",
         "C06: firewall second-stage blocks: what the firewall does with a frame that a NON-denying second list permits (a zone "
         "with no wire to the protected side), its own session replies and the DMZ look-ups are hypotheses of "
-        "C06_certifiedC_unchanged (FwSecondOK), validated by R-net's count of frames put on protected-side wires",
-        "C06: frame classes: that attacker-side nodes emit only frames of the scenario's class is a hypothesis (EmitsCl), proved "
-        "for the source part of host emissions (C06_localOp_src_class) and validated by R-net on every transmitted frame",
+        "C06_certifiedC/N_unchanged (FwSecondOK), validated by R-net's count of frames put on protected-side wires",
+        "C06: frame classes: destination-/protocol-specific rules and attacker-side interior routers keep the closure hypothesis "
+        "EmitsCl (validated by R-net on every transmitted frame); source classes and the any-class over hosts and switches are proved",
         "C06: node-off inertness of hosts/switches/firewalls rests on C12's invariant 'not ON => interfaces disabled' (F-13/F-14)",
         "C06: frames are values in the model (the code shares one mutable Frame object among the recipients of a flood); frames "
         "whose IP protocol is TCP/UDP carry that header (enforced by Frame.__init__)",
